@@ -173,6 +173,12 @@ KERNELS = [
     dict(name='magnetMultiParams', kind='strings', file='torf/_magnet.py', func='Magnet.from_string', pick=('for-tuple', 1)),
     dict(name='magnetRenderSingle', kind='strings', file='torf/_magnet.py', func='Magnet.__str__', pick=('for-tuple', 0)),
     dict(name='magnetRenderMulti', kind='strings', file='torf/_magnet.py', func='Magnet.__str__', pick=('for-tuple', 1)),
+    # --- the dictionary keys Torrent.validate / Torrent.read_stream read (C08): every string constant the function uses as a
+    #     key (subscript, .get/.pop, in / == test, key-path tuple; harness/gen/keyharvest.py), sorted.  The bridge theorems say
+    #     that each of them is in the vocabulary of the model (Model/KeyVocabulary.lean), outside of which the model provably
+    #     ignores a metainfo (C08_unknown_key_irrelevant): a key the code starts reading breaks the obligation
+    dict(name='validateKeys', kind='keys', file='torf/_torrent.py', func='Torrent.validate'),
+    dict(name='readStreamKeys', kind='keys', file='torf/_torrent.py', func='Torrent.read_stream'),
 ]
 
 
@@ -559,11 +565,30 @@ def translate_strings(repo, k):
     return f'def {k["name"]} : List String :=\n  [' + ', '.join(out) + ']'
 
 
+def translate_keys(repo, k):
+    """the string constants a function uses as dictionary keys (primary uses of harness/gen/keyharvest.py), sorted"""
+    from harness.gen import keyharvest
+    tree = ast.parse(open(os.path.join(repo, k['file'])).read())
+    prim, _ = keyharvest.harvest_tree(_find_func(tree, k['func']))
+    out = []
+    for key in sorted(prim):
+        try:
+            t = key.decode('utf8')
+        except UnicodeDecodeError:
+            raise CannotTranslate(f'key {key!r} is not UTF-8')
+        if not (t.isascii() and t.isprintable() and '"' not in t and '\\' not in t):
+            raise CannotTranslate(f'key {t!r}')
+        out.append('"' + t + '"')
+    return f'def {k["name"]} : List String :=\n  [' + ', '.join(out) + ']'
+
+
 def translate_kernel(repo, k):
     if k.get('kind') == 'regex':
         return translate_regex(repo, k)
     if k.get('kind') == 'strings':
         return translate_strings(repo, k)
+    if k.get('kind') == 'keys':
+        return translate_keys(repo, k)
     src = open(os.path.join(repo, k['file'])).read()
     tree = ast.parse(src)
     fn = _find_func(tree, k['func'])
